@@ -1,6 +1,14 @@
 """Per-property configuration of bin/check."""
 from vlib import hex_to_coq
 
+import trace as _trace
+
+def judge_pesf(case, impl, model, spec):
+    r = _trace.pesf_judge(case, impl)
+    if r:
+        return ("violation", r)
+    return ("correspondence", "implementation differs from the model although the protocol / continuity predicates hold on its trace")
+
 COMMON_TRUSTED = [
     "Coq 8.16.1 kernel (coqc); vm_compute for finite sweeps and case evaluation; no native_compute",
     "axioms: none (every property theorem is 'Closed under the global context')",
@@ -54,7 +62,7 @@ def r_stream(toks):
         return f"run_sec {toks[1]} [" + "; ".join(hex_to_coq(t) for t in toks[2:]) + "]"
     if k == "PESF":
         if sum(len(t) for t in toks[1:]) > 8000: return None
-        return "run_pesf [" + "; ".join(hex_to_coq(t) for t in toks[1:]) + "]"
+        return f"run_pesf {toks[1]} [" + "; ".join(hex_to_coq(t) for t in toks[2:]) + "]"
     if k == "CRC": return f"run_crc {hex_to_coq(toks[1])}"
     if k == "DSC": return f"run_dsc {hex_to_coq(toks[1])}"
     if k == "PAT": return f"run_pat {hex_to_coq(toks[1])}"
@@ -65,6 +73,31 @@ def r_c14(toks):
     return f"{'run_pes' if toks[0] == 'PES' else 'run_ppc'} false {hex_to_coq(toks[1])}"
 
 PROPS = {
+    "C08": dict(
+        props_files=["Props/C08.v"],
+        suites=["C08"],
+        render=r_stream,
+        judge=judge_pesf,
+        rule="every word up to length 3 (thorough 4) over 30 packet classes (unit start x payload presence AFC 01/11/10 x counter "
+             "relation successor/equal/other x PES header recognisable or not) from the initial filter state; all 16x16 counter "
+             "pairs x payload/none x unit-start from each of the three filter states; random words of length 4..30 with deep "
+             "header observation; loss / duplication / reordering mutants of clean streams; distinct = distinct case lines",
+        trusted=["call-back protocol of the ElementaryStreamConsumer trait documentation as transcribed in coq/Spec/EsProtocol.v",
+                 "bin/trace.py: run-time monitor evaluated on the implementation's trace (classifies disagreements only)"],
+        assumptions=["packets handed to the filter are 188 bytes with a sync byte (Packet::new's precondition)"],
+    ),
+    "C09": dict(
+        props_files=["Props/C09.v"],
+        suites=["C08"],
+        render=r_stream,
+        judge=judge_pesf,
+        rule="same suite as C08 (exhaustive 16 x 16 counter pairs x payload/no-payload x unit-start from every filter state; "
+             "all short words over the packet classes; loss/duplication/reordering mutants); the predicate evaluated on the "
+             "implementation's trace is the iff of C09_iff recomputed from the packets by an independent packet reader",
+        trusted=["13818-1 2.4.3.3 continuity_counter semantics as transcribed in coq/Spec/EsProtocol.v (expected_cc)",
+                 "bin/trace.py: run-time predicate evaluated on the implementation's trace (classifies disagreements only)"],
+        assumptions=["'previous packet delivered' means delivered to this filter: packets with transport_error_indicator or scrambling never reach it (C06)"],
+    ),
     "C16": dict(
         props_files=["Props/C16.v"],
         suites=["C16"],
